@@ -1,6 +1,6 @@
 (* RetentionCheck.v — executable comparison of the retention model with observations of
    the real retention pass (used by the generated case files of C14). *)
-From SigM Require Import Base Retention.
+From SigM Require Import Base Retention RetentionMem.
 Open Scope N_scope.
 
 (* the iteration order the real run showed (directories in the order they were removed) *)
@@ -147,3 +147,62 @@ Definition mseg (d : path) (e l : N) (org : Z) (tt : path) : seg := mkseg d KMet
 Definition check_scenario_notrace (st : store) (hz hz2 : N) (orgs : list Z) (order : order_t)
   (trace : list teff) (post post2 : outcome) (trials : list (nat * outcome * outcome)) : list nat :=
   filter (fun i => negb (Nat.eqb i 3)) (check_scenario st hz hz2 orgs order trace post post2 trials).
+
+(* ---------- the three views of the in-memory metadata (RetentionMem.v) ---------- *)
+(* what the harness reads through GetAllSegmentMicroIndexForTest / GetSegmentMetadataReverseIndexForTest /
+   GetTableSortedMetadata: keys in slice order, keys of the map, table -> keys in slice order *)
+Record views := mkviews { v_all : list path; v_rev : list path; v_tbl : list (N * list path) }.
+
+Definition views_of (m : memmeta) : views :=
+  mkviews (map me_key (mm_all m)) (mm_rev m) (map (fun tl => (fst tl, map me_key (snd tl))) (mm_tables m)).
+
+Definition views_eqb (a b : views) : bool :=
+  list_eqb path_eqb (v_all a) (v_all b)
+  && seteq (v_rev a) (v_rev b)
+  && list_eqb (fun x y => (fst x =? fst y) && list_eqb path_eqb (snd x) (snd y)) (v_tbl a) (v_tbl b).
+
+Definition me (d : path) (t e l : N) (o : Z) : ment := mkment d t e l o.
+
+(* the store before the pass: entries with their fields once, the table slices by key (an entry of
+   a table slice that the global slice does not hold becomes an entry of that table with no fields:
+   views_agree then fails) *)
+Definition mm_of (all : list ment) (rev : list path) (tbl : list (N * list path)) : memmeta :=
+  mkmm all rev
+    (map (fun tl => (fst tl, map (fun k => match find_key k all with Some e => e | None => mkment k (fst tl) 0 0 0 end) (snd tl))) tbl).
+
+(* FilterSegmentsByTime(range [lo,hi], [table], org) returned the keys *)
+Definition enumrec := (N * N * N * Z * list path)%type.
+
+Definition enum_ok (m : memmeta) (l : list enumrec) : bool :=
+  forallb (fun r => match r with (lo, hi, t, o, ks) => seteq (enumerate lo hi t o m) ks end) l.
+
+Fixpoint check_trial_views (order : order_t) (hz2 : N) (orgs : list Z) (st : store) (es : list eff)
+  (trials : list (nat * outcome * outcome)) (vts : list (memmeta * views * list enumrec)) (idx : nat) : list nat :=
+  match trials, vts with
+  | (a, _, _) :: r, (pm, pv, en) :: vr =>
+    let st_k := restart (apply_effs (take_disk a es st) st) in
+    let m' := apply_mem_effs (passes_effs order hz2 orgs st_k) pm in
+    (if views_agree pm && views_sorted pm && seteq (mem_abs pm) (mem st_k) then [] else [idx])
+    ++ (if views_eqb (views_of m') pv && enum_ok m' en then [] else [S idx])
+    ++ check_trial_views order hz2 orgs st es r vr (S (S idx))
+  | _, _ => []
+  end.
+
+(* 4: the views observed before the pass do not agree with each other / are not in descending order /
+      do not hold the keys of [mem];  5: views after the pass differ from md_delete applied for every
+      EMemDel of the model's pass;  6: the same after the repeated pass;  7: FilterSegmentsByTime
+      differs from [enumerate] before or after the pass;
+   200+2i / 201+2i: interruption trial i: views after the restart / after the full pass *)
+Definition check_views (st : store) (hz hz2 : N) (orgs : list Z) (order : order_t)
+  (trials : list (nat * outcome * outcome))
+  (pm : memmeta) (post post2 : views) (en_pre en_post : list enumrec)
+  (vts : list (memmeta * views * list enumrec)) : list nat :=
+  let es := passes_effs order hz orgs st in
+  let st1 := apply_effs es st in
+  let m1 := apply_mem_effs es pm in
+  let m2 := apply_mem_effs (passes_effs order hz orgs st1) m1 in
+  (if views_agree pm && views_sorted pm && seteq (mem_abs pm) (mem st) then [] else [4%nat])
+  ++ (if views_eqb (views_of m1) post then [] else [5%nat])
+  ++ (if views_eqb (views_of m2) post2 then [] else [6%nat])
+  ++ (if enum_ok pm en_pre && enum_ok m1 en_post then [] else [7%nat])
+  ++ check_trial_views order hz2 orgs st es trials vts 200.
